@@ -126,3 +126,119 @@ def kernel_classes(repo: Repo) -> dict[str, ClassInfo]:
 
 def stmt_of(fi: FunctionInfo, pred) -> list[ast.stmt]:
     return [s for s in ast.walk(fi.node) if isinstance(s, ast.stmt) and pred(s)]
+
+
+# --------------------------------------------------------------------------------------
+# closures made in a loop
+# --------------------------------------------------------------------------------------
+#: callables that invoke the closure they are given before they return, so the closure
+#: cannot outlive the iteration that made it (frozen from the package: Option.map/map_or
+#: in goose/engine.py and goose/summary_m.py; the builtins are the usual suspects)
+IMMEDIATE_CONSUMERS = {"map_or", "map", "sorted", "min", "max", "filter", "any", "all",
+                       "tree_map", "sum", "next", "reduce"}
+
+
+def late_bound_closures(tree: ast.AST) -> list[tuple[ast.AST, ast.AST, list[str]]]:
+    """-> [(loop, closure, captured names)]: closures (lambda / def) created in a loop body
+    that read a name (re)bound by that loop WITHOUT binding it at creation (default
+    argument) and that are not consumed on the spot.  Python looks such names up when the
+    closure RUNS: every closure made by the loop then sees the last iteration's value."""
+    out = []
+    for loop in ast.walk(tree):
+        if not isinstance(loop, (ast.For, ast.While)):
+            continue
+        bound: set[str] = set()
+        if isinstance(loop, ast.For):
+            bound |= {m.id for m in ast.walk(loop.target) if isinstance(m, ast.Name)}
+        parents: dict[ast.AST, ast.AST] = {}
+        for st in loop.body:
+            for nd in ast.walk(st):
+                for ch in ast.iter_child_nodes(nd):
+                    parents[ch] = nd
+                tgts = []
+                if isinstance(nd, ast.Assign):
+                    tgts = nd.targets
+                elif isinstance(nd, (ast.AnnAssign, ast.AugAssign, ast.NamedExpr)):
+                    tgts = [nd.target]
+                elif isinstance(nd, (ast.With,)):
+                    tgts = [i.optional_vars for i in nd.items if i.optional_vars]
+                for t in tgts:
+                    bound |= {m.id for m in ast.walk(t) if isinstance(m, ast.Name)}
+        for st in loop.body:
+            for nd in ast.walk(st):
+                if not isinstance(nd, (ast.Lambda, ast.FunctionDef)):
+                    continue
+                a = nd.args
+                params = {x.arg for x in a.args + a.kwonlyargs + a.posonlyargs}
+                params |= {x.arg for x in (a.vararg, a.kwarg) if x}
+                body = nd.body if isinstance(nd.body, list) else [nd.body]
+                local = {m.id for b in body for m in ast.walk(b)
+                         if isinstance(m, ast.Name) and isinstance(m.ctx, ast.Store)}
+                used = {m.id for b in body for m in ast.walk(b)
+                        if isinstance(m, ast.Name) and isinstance(m.ctx, ast.Load)}
+                cap = sorted((used - params - local) & bound)
+                if not cap:
+                    continue
+                if isinstance(nd, ast.Lambda):
+                    par = parents.get(nd)
+                    # called on the spot: (lambda ...)(...)
+                    if isinstance(par, ast.Call) and par.func is nd:
+                        continue
+                    if isinstance(par, ast.keyword):
+                        par = parents.get(par)
+                    if isinstance(par, ast.Call):
+                        f = par.func
+                        nm = f.attr if isinstance(f, ast.Attribute) else getattr(f, "id", "")
+                        if nm in IMMEDIATE_CONSUMERS:
+                            continue
+                        # jax.vmap(lambda ...)(xs): transformed and applied on the spot
+                        gp = parents.get(par)
+                        if isinstance(gp, ast.Call) and gp.func is par:
+                            continue
+                else:
+                    # a def whose name is only ever CALLED inside this iteration
+                    uses = [m for s2 in loop.body for m in ast.walk(s2)
+                            if isinstance(m, ast.Name) and m.id == nd.name
+                            and isinstance(m.ctx, ast.Load)]
+                    if uses and all(isinstance(parents.get(u), ast.Call)
+                                    and parents[u].func is u for u in uses):
+                        continue
+                out.append((loop, nd, cap))
+    return out
+
+
+_LATE_BINDING_WITNESS = """
+def make(groups):
+    ks = []
+    for g in groups:
+        ks.append(lambda s: g.value(s))
+    for g in groups:
+        ks.append(lambda s, g=g: g.value(s))
+    for g in groups:
+        x = opt.map(lambda d: d[g])
+    return ks
+"""
+
+
+def late_binding_obligations(ctx, rule: str, modules: list[str], what: str) -> None:
+    """no closure that outlives its loop iteration reads a variable of that loop"""
+    w = late_bound_closures(ast.parse(_LATE_BINDING_WITNESS))
+    assert len(w) == 1 and w[0][2] == ["g"], "late-binding detector lost its witness"
+    seen = 0
+    for mname in modules:
+        mi = ctx.repo.module(mname)
+        bad = late_bound_closures(mi.tree)
+        seen += sum(isinstance(x, (ast.For, ast.While)) for x in ast.walk(mi.tree))
+        for loop, cl, cap in bad:
+            owner = next((f for f in ctx.repo.functions.values() if f.module is mi
+                          and f.node.lineno <= cl.lineno <= (f.node.end_lineno or 0)
+                          and f.node is not cl), mi)
+            ctx.ob(rule, owner, f"{what}: a closure made in a loop does not read the "
+                                f"loop's variables when it runs later (they then all hold the "
+                                f"LAST iteration's value)", False, node=cl,
+                   detail=f"closure at line {cl.lineno} reads {', '.join(cap)} of the loop at "
+                          f"line {loop.lineno} by reference",
+                   stmt="late-bound " + ast.unparse(cl)[:120])
+    ctx.ob(rule, modules[0], f"{what}: no closure created in a loop captures that loop's "
+                             f"variables by reference ({seen} loops in {len(modules)} modules)",
+           True, facts={"loops": seen, "modules": modules})
